@@ -188,7 +188,7 @@ def parse_cbmc(text):
             continue
         res["checks"] += 1
         if status == "FAILURE":
-            res["failed"].append({"name": "%s.%s" % (name, cls), "desc": desc, "loc": loc})
+            res["failed"].append({"name": "%s.%s" % (name, cls), "desc": desc, "loc": loc, "prop_id": "%s.%s.%s" % (name, cls, m.group(3))})
         elif status != "SUCCESS":
             res["undetermined"] += 1
         if FIRST_PARTY.search(cur_file) and "kani_" not in cur_fn and "_harness" not in cur_file:
@@ -251,55 +251,82 @@ def solve(h, symtab, unwind_mangled, rundir):
     else:
         unsat = [c for c in parsed["covers"] if c["status"] != "SATISFIED"]
         st = "VACUOUS" if unsat or (h.get("need_cover", True) and not parsed["covers"]) else "PASS"
-    try:
-        os.remove(out)
-    except OSError:
-        pass
+    if st != "FAIL":
+        try:
+            os.remove(out)
+        except OSError:
+            pass
+    parsed["goto_out"] = out
+    parsed["cbmc_cmd"] = cb
     return st, parsed, logp, wall
 
 
-PLAYBACK_TEST_RE = re.compile(r"fn (kani_concrete_playback_\w+)")
+WIT_RE = re.compile(r"4vwit1W\[(\d+)l?\]\s*=\s*(\d+)")
 
 
-def playback(h, ovdir, rundir):
-    """Re-run a failing harness with concrete playback (in place, inside the scratch overlay copy) and execute
-    the generated unit test natively (rustc-compiled real first-party code + shims). Returns dict."""
-    key = h["profile"] + ("-" + h["features"] if h.get("features") else "")
-    out = {"reproduced": False, "test": None, "native_tail": ""}
-    with Slot(key + "-pb") as slot:
-        ws = os.path.join(slot.dir, "ws")
-        sh(["rsync", "-a", "--delete", ovdir + "/", ws + "/"])
-        env = dict(os.environ)
-        env.update(CARGO_NET_OFFLINE="true", CARGO_TARGET_DIR=os.path.join(slot.dir, "target"))
-        cmd = kani_cmd(h, ["-Z", "concrete-playback", "--concrete-playback=inplace"])
-        timeout = int(h.get("timeout", 600)) * 2
-        r = sh(["bash", "-c", "ulimit -v %d; exec timeout -k 10 %d %s" % (
-            int(h.get("mem_gb", 12) * 1048576), timeout, " ".join("'%s'" % c for c in cmd))], cwd=ws, env=env)
-        hfile = None
-        for f in os.listdir(os.path.join(ws, "_harness")):
-            p = os.path.join(ws, "_harness", f)
-            if os.path.isfile(p) and "kani_concrete_playback_" + h["name"] in open(p, errors="replace").read():
-                hfile = p
-        if not hfile:
-            out["native_tail"] = "no playback test generated\n" + r.stdout[-1500:]
+def extract_witness(h, parsed, failed, rundir):
+    """Ask CBMC for a trace of the first failed property and read the witness table vwit::W from it."""
+    out = parsed.get("goto_out")
+    if not out or not os.path.exists(out):
+        return None, "goto binary not kept"
+    prop = failed[0].get("prop_id")
+    cmd = [c for c in parsed["cbmc_cmd"] if c not in ("--verbosity", "8")] + ["--trace", "--verbosity", "4"]
+    if prop:
+        cmd += ["--property", prop]
+    tp = os.path.join(rundir, "logs", h["short"] + ".trace")
+    timeout = int(h.get("timeout", 600) * 2)
+    with open(tp, "w") as tf:
+        subprocess.run(["bash", "-c", "ulimit -v %d; exec timeout -k 10 %d %s" % (
+            int(max(h.get("mem_gb", 12), 24) * 1048576), timeout, " ".join("'%s'" % c for c in cmd))], stdout=tf, stderr=subprocess.STDOUT)
+    wit = {}
+    n_lines = 0
+    with open(tp, errors="replace") as tf:
+        for line in tf:
+            n_lines += 1
+            for m in WIT_RE.finditer(line):
+                wit[int(m.group(1))] = int(m.group(2))
+    if not wit and n_lines < 5:
+        return None, "no trace produced"
+    vals = [wit.get(i, 0) for i in range((max(wit) + 1) if wit else 0)]
+    return vals, tp
+
+
+def playback(h, ovdir_unused, rundir, parsed=None, failed=None):
+    """Native replay: extract the solver's witness (values of every symbolic draw, in order) from a CBMC trace, rebuild the
+    overlay in replay mode (harnesses as #[test], kani attributes stripped, rustc instead of kani-compiler) and run the
+    harness natively with VERIF_WITNESS. Reproduced = the native test fails."""
+    out = {"reproduced": False, "witness": None, "test": h["name"], "native_tail": ""}
+    vals, info = extract_witness(h, parsed or {}, failed or [{}], rundir)
+    if vals is None:
+        out["native_tail"] = "witness extraction failed: %s" % info
+        return out
+    out["witness"] = vals
+    base = h["profile"]
+    ov = os.path.join(rundir, "ovr-" + base)
+    if not os.path.exists(ov):
+        r = sh([sys.executable, os.path.join(ROOT, "kani", "overlay.py"), "--profile", base, "--out", ov, "--repo", REPO, "--replay"])
+        if r.returncode != 0:
+            out["native_tail"] = "replay overlay failed: " + r.stdout[-1500:]
             return out
-        src = open(hfile).read()
-        m = re.search(r"(/// Test generated for harness[^\n]*\n)?#\[test\]\s*\n\s*fn (kani_concrete_playback_%s\w*)\(\) \{.*?\n\}\n" % re.escape(h["name"]), src, re.S)
-        tname = m.group(2) if m else None
-        out["test"] = m.group(0) if m else None
-        pkg = h.get("pkg") or PKG_OF_PROFILE.get(h["profile"], "consensus")
-        env2 = dict(env)
-        env2.pop("CARGO_TARGET_DIR", None)
-        pc = ["cargo", "kani", "playback", "-Z", "concrete-playback", "-p", pkg]
+    with Slot(base + "-replay") as slot:
+        ws = os.path.join(slot.dir, "ws")
+        sh(["rsync", "-a", "--delete", ov + "/", ws + "/"])
+        env = dict(os.environ)
+        env.update(CARGO_NET_OFFLINE="true", CARGO_TARGET_DIR=os.path.join(slot.dir, "target"),
+                   VERIF_WITNESS=",".join(str(v) for v in vals), RUST_BACKTRACE="0")
+        env["RUSTFLAGS"] = "--cfg verif_replay"
+        cmd = ["cargo", "test", "--offline", "-p", pkg_of(h), "--lib"]
         if h.get("features"):
-            pc += ["--features", h["features"]]
-        pc += ["--", tname or "kani_concrete_playback"]
-        r2 = sh(["bash", "-c", "exec timeout -k 10 900 " + " ".join("'%s'" % c for c in pc)], cwd=ws, env=env2)
+            cmd += ["--features", h["features"]]
+        cmd += ["--", h["name"], "--exact", "--test-threads=1"]
+        r2 = sh(["timeout", "-k", "10", "1200"] + cmd, cwd=ws, env=env)
         out["native_tail"] = r2.stdout[-3000:]
-        out["reproduced"] = bool(re.search(r"test result: FAILED|panicked at", r2.stdout)) and "0 passed; 1 failed" in r2.stdout or \
-            bool(re.search(r"test .*%s.* \.\.\. FAILED" % re.escape(tname or "@@"), r2.stdout))
-        if not KEEP:
-            shutil.rmtree(slot.dir, ignore_errors=True)
+        out["command"] = "VERIF_WITNESS=%s %s" % (env["VERIF_WITNESS"], " ".join(cmd))
+        ran = re.search(r"running 1 test", r2.stdout) is not None
+        out["reproduced"] = ran and bool(re.search(r"test result: FAILED\. 0 passed; 1 failed", r2.stdout)) and \
+            "violates a harness assumption" not in r2.stdout
+        m = re.search(r"panicked at [^\n]*\n([^\n]*)", r2.stdout)
+        out["native_panic"] = m.group(0)[:400] if m else None
     return out
 
 
@@ -408,11 +435,14 @@ def run_property(pid, spec, tier, seed, only=None, jobs=0):
 
         # ---- classify Kani results
         samples = []
+        pending_replay = []
         obligations = discharged = queries = 0
         solver_s = 0.0
         functions = set()
         nontrivial = 0
+        parsed_of = {}
         for h, st, parsed, logp, wall in results:
+            parsed_of[h["name"]] = parsed
             queries += 1
             obligations += parsed["checks"] + len(parsed["covers"])
             solver_s += parsed.get("solver_s") or 0.0
@@ -427,6 +457,22 @@ def run_property(pid, spec, tier, seed, only=None, jobs=0):
                 if parsed["checks"] > 0:
                     nontrivial += 1
             elif st == "FAIL":
+                # assertion messages carry the id of the property they state ("Cxx ..."); a failure that states another
+                # property is that property's business (its own check runs the same harness) and is only noted here
+                mine, foreign = [], []
+                for f in parsed["failed"]:
+                    tag = re.match(r'^"?(C\d\d)\b', f["desc"])
+                    (foreign if tag and tag.group(1) != pid else mine).append(f)
+                if foreign:
+                    sample["failed_other_property"] = [f["desc"] for f in foreign]
+                if not mine:
+                    discharged += parsed["checks"] - len(foreign)
+                    sample["status"] = "PASS (failures belong to %s)" % ",".join(sorted(set(re.match(r'^"?(C\d\d)', f["desc"]).group(1) for f in foreign)))
+                    nontrivial += 1
+                    samples.append(sample)
+                    continue
+                parsed = dict(parsed)
+                parsed["failed"] = mine
                 hits, rest = match_known(pid, h["name"], parsed["failed"], known)
                 discharged += parsed["checks"] - len(parsed["failed"])
                 if hits and not rest:
@@ -435,15 +481,8 @@ def run_property(pid, spec, tier, seed, only=None, jobs=0):
                     sample["status"] = "KNOWN-FINDING"
                     nontrivial += 1
                 else:
-                    pb = playback(h, overlays[h["profile"]], rundir)
-                    rp = save_replay(pid, h, [f for f, _ in rest] or parsed["failed"], pb, logp)
                     sample["failed"] = [f["desc"] + " @ " + f["loc"] for f, _ in rest]
-                    sample["replay"] = rp
-                    if pb["reproduced"]:
-                        violations.append({"harness": h["name"], "failed": sample["failed"], "replay": rp})
-                    else:
-                        log("INCONCLUSIVE %s: counterexample did not reproduce natively (see %s)" % (h["name"], rp))
-                        inconclusive.append(h["name"] + ":noreplay")
+                    pending_replay.append((h, [f for f, _ in rest] or parsed["failed"], logp, sample, wall))
             else:
                 inconclusive.append("%s:%s" % (h["name"], st))
                 keep = os.path.join(SCRATCH, "logs", pid)
@@ -452,6 +491,27 @@ def run_property(pid, spec, tier, seed, only=None, jobs=0):
                     shutil.copy(logp, keep)
                     sample["log"] = os.path.join(keep, os.path.basename(logp))
             samples.append(sample)
+        # ---- counterexamples: replay natively before reporting. Cheapest failing harness first; at most MAX_REPLAYS attempts;
+        #      further failing harnesses are listed as unreplayed (they need no separate VIOLATION line).
+        max_replays = int(os.environ.get("VERIF_MAX_REPLAYS", "2"))
+        pending_replay.sort(key=lambda t: t[4])
+        reproduced = False
+        for n_try, (h, failed, logp, sample, _) in enumerate(pending_replay):
+            if reproduced or n_try >= max_replays:
+                sample["replay"] = "not replayed (an earlier counterexample of this run was already reproduced)" if reproduced else "not replayed (replay budget)"
+                if reproduced:
+                    violations[-1].setdefault("also_failing", []).append(h.get("short", h["name"]))
+                continue
+            pb = playback(h, overlays[h["profile"]], rundir, parsed=parsed_of[h["name"]], failed=failed)
+            rp = save_replay(pid, h, failed, pb, logp)
+            sample["replay"] = rp
+            if pb["reproduced"]:
+                reproduced = True
+                violations.append({"harness": h["name"], "failed": sample["failed"], "replay": rp})
+            else:
+                log("INCONCLUSIVE %s: counterexample did not reproduce natively (see %s)" % (h["name"], rp))
+        if pending_replay and not reproduced:
+            inconclusive.append("%d failing harness(es), none reproduced natively" % len(pending_replay))
         for er in engine_results:
             queries += er["queries"]
             obligations += er.get("obligations", er["queries"])
@@ -471,6 +531,8 @@ def run_property(pid, spec, tier, seed, only=None, jobs=0):
             log("VIOLATION property=%s replay=%s" % (pid, v["replay"]))
             for d in v["failed"][:5]:
                 log("    " + str(d))
+            if v.get("also_failing"):
+                log("    also failing (not replayed separately): " + ", ".join(v["also_failing"]))
         for i in inconclusive:
             log("INCONCLUSIVE property=%s %s" % (pid, i))
         wall = time.time() - t0
@@ -516,34 +578,37 @@ def save_replay(pid, h, failed, pb, logp):
     d = os.path.join(ROOT, "replays", pid)
     os.makedirs(d, exist_ok=True)
     p = os.path.join(d, h["name"] + ".json")
-    json.dump({"property": pid, "harness": h, "failed_checks": failed, "playback_test": pb.get("test"),
-               "reproduced_natively": pb.get("reproduced"), "native_output_tail": pb.get("native_tail"),
-               "how": "cargo kani -Z concrete-playback --concrete-playback=inplace, then cargo kani playback (native run of the "
-                      "real first-party code in the overlay with the solver's values)"}, open(p, "w"), indent=1)
+    json.dump({"property": pid, "harness": h, "failed_checks": failed, "witness": pb.get("witness"),
+               "reproduced_natively": pb.get("reproduced"), "native_command": pb.get("command"), "native_panic": pb.get("native_panic"),
+               "native_output_tail": pb.get("native_tail"),
+               "how": "cbmc --trace on the failed property -> values of every symbolic draw (vwit::W) -> overlay rebuilt in replay mode "
+                      "(harness as #[test], rustc) -> harness run natively with VERIF_WITNESS against the real first-party code"},
+              open(p, "w"), indent=1)
     return p
 
 
 def replay_saved(pid, path):
-    """Re-execute a saved counterexample: rebuild the overlay from the current tree, regenerate the playback test for the
-    same harness and run it natively. exit 1 if it still fails (violation reproduced), 0 if it no longer fails."""
+    """Re-execute a saved counterexample natively against the current tree (same witness). exit 1 if it still fails."""
     rp = json.load(open(path))
     h = rp["harness"]
     rundir = os.path.join(SCRATCH, "replay-%s-%d" % (pid, os.getpid()))
-    os.makedirs(rundir, exist_ok=True)
+    os.makedirs(os.path.join(rundir, "logs"), exist_ok=True)
     try:
-        ov, _ = build_overlay(h["profile"], rundir)
-        comp = codegen([h], ov, rundir)
-        symtab, unwind = comp[h["name"]]
-        st, parsed, logp, wall = solve(h, symtab, unwind, rundir)
-        if st != "FAIL":
-            log("replay: harness %s now %s" % (h["name"], st))
-            return 0 if st == "PASS" else 2
-        pb = playback(h, ov, rundir)
+        global extract_witness
+        saved = rp.get("witness") or []
+        real_extract = extract_witness
+        extract_witness = lambda *a, **k: (saved, "saved witness")  # noqa: E731
+        try:
+            pb = playback(h, None, rundir, parsed={}, failed=rp.get("failed_checks") or [{}])
+        finally:
+            extract_witness = real_extract
         log(pb["native_tail"][-1500:])
         if pb["reproduced"]:
             log("VIOLATION property=%s replay=%s" % (pid, path))
             return 1
-        return 2
+        log("replay: the saved counterexample no longer fails on the current tree")
+        return 0
     finally:
-        shutil.rmtree(rundir, ignore_errors=True)
+        if not KEEP:
+            shutil.rmtree(rundir, ignore_errors=True)
         slot_cleanup()
